@@ -1,7 +1,8 @@
 /-
 Driver/C09.lean — line-protocol driver for C09.  Evaluates the definitions the theorems of Props/C09.lean
 are about (`quote`, `lex`, `unquote`, `renderInt`, `readInt`, `inferType`, `litOf`, `derivedNames`,
-`dictRowCells`, the scope predicates) on the inputs of one case.  Strings travel as code-point arrays.
+`dictRowCells`, `inferTy` / `specTy` on value trees, `litTs` / `tsBack` / `specTsBack` on timestamps, the scope predicates)
+on the inputs of one case.  Strings travel as code-point arrays.
 in : {"case": n, "strings": [[cp]], "sql": [cp], "ints": ["-12"], "kinds": ["bool"], "floats": [[decimalTyped, direct]],
       "schema": {"form": SchemaForm, "shape": RowShape}?, "dict": {"cols": [..], "keys": [..]}?}
 -/
@@ -18,6 +19,11 @@ structure DictCase where
   keys : List String
   deriving FromJson
 
+structure TsCase where
+  wall : String
+  off : Option String := none
+  deriving FromJson
+
 structure Case where
   case : Nat
   strings : List (List Nat) := []
@@ -29,6 +35,10 @@ structure Case where
   schema : Option SchemaCase := none
   dict : Option DictCase := none
   dicts : List DictCase := []
+  tss : List TsCase := []
+  zone : String := "0"
+  trees : List Json := []
+  fdigits : List (Bool × String) := []
   deriving FromJson
 
 def optNames : Option (List String) → Json
@@ -66,7 +76,10 @@ def handle (line : String) : String :=
                               ("operand", toJson (operandLit k).name),
                               ("typed", toJson (typedRight k (litOf k))),
                               ("cast", toJson (columnHasCast (inferType k).isSome)),
-                              ("hinf", toJson (decide (H_infLiteral k)))]
+                              ("hinf", toJson (decide (H_infLiteral k))),
+                              ("hinfop", toJson (decide (H_infOperand k))),
+                              ("infTexts", match infLitTexts with | some (p, n) => toJson [p, n] | none => Json.null),
+                              ("infNestedDouble", toJson infNestedDouble)]
       | none => Json.mkObj [("err", toJson s!"unknown kind {n}")])
     let floats := c.floats.map (fun (d, r) =>
       Json.mkObj [("back", toJson (if floatBack d r = BackTy.float then "float" else "decimal")),
@@ -90,8 +103,25 @@ def handle (line : String) : String :=
       Json.mkObj [("model", toJson (dictRowCells d.cols row)),
                   ("spec", toJson (specDictRowCells d.cols row)),
                   ("violated", toJson (if decide (H_dictOrder d.cols row) then ([] : List String) else ["H_dictOrder"]))])
+    let z := c.zone.toInt?.getD 0
+    let optInt : Option Int → Json := fun o => match o with | some i => toJson (toString i) | none => Json.null
+    let tss := c.tss.map (fun t =>
+      match t.wall.toInt?, (match t.off with | some o => o.toInt?.map some | none => some none) with
+      | some w, some o =>
+        let v : PyTs := ⟨w, o⟩
+        let l := litTs v
+        Json.mkObj [("litWall", toJson (toString l.wall)), ("litOff", optInt l.off), ("ty", toJson l.ty),
+                    ("back", optInt (tsBack z v)), ("spec", toJson (toString (specTsBack z v)))]
+      | _, _ => Json.mkObj [("err", toJson "bad timestamp")])
+    let trees := c.trees.map (fun j =>
+      match PyVal.ofJson j with
+      | .ok v => Json.mkObj [("ty", optTy (inferTy v)), ("text", match inferTy v with | some t => toJson t.text | none => Json.null),
+                             ("spec", optTy (specTy v)), ("ok", toJson (decide (H_firstRowTyped v))),
+                             ("cast", toJson (columnHasCast (inferTy v).isSome))]
+      | .error e => Json.mkObj [("err", toJson e)])
+    let fdigits := c.fdigits.map (fun (d, u) => toJson (decide (H_floatDigits d (u.toNat?.getD 0))))
     Json.compress (Json.mkObj [
-      ("case", toJson c.case), ("dicts", toJson dicts), ("quoted", toJson quoted), ("unq", toJson unq), ("tokOk", toJson tokOk),
+      ("case", toJson c.case), ("fdigits", toJson fdigits), ("tss", toJson tss), ("trees", toJson trees), ("dicts", toJson dicts), ("quoted", toJson quoted), ("unq", toJson unq), ("tokOk", toJson tokOk),
       ("noNul", toJson noNul), ("sqlStrs", toJson sqlStrs), ("sqlIds", toJson sqlIds),
       ("unterminated", toJson unterminated), ("ints", toJson ints), ("kinds", toJson kinds), ("floats", toJson floats), ("nans", toJson nans),
       ("schema", schema), ("dict", dict)])
